@@ -559,7 +559,9 @@ func main() {
 		"also yang.Parse alone on every text. Streams in order: corpus/C01 (crash witnesses of DESIGN section 8), every .yang file and every YANG literal of " +
 		"pkg/yang/*_test.go alone / as written groups / in pairs, grammar-aware mutation of generated sets and of those texts (incl. numeric boundary arguments " +
 		"combined with range/length restrictions and typedef chains, texts that Modules.Parse rejects late after typedef-bearing statements, submodules included by a module they do not belong to or whose owner is " +
-		"absent, identities / typedefs / groupings of one name in several (sub)modules derived from one base), byte-level mutation, nesting " +
+		"absent, identities / typedefs / groupings of one name in several (sub)modules derived from one base, and the whole family of schema-node-identifier arguments " +
+		"- relative / absolute x unprefixed / own / import / unknown prefix x existing / missing target x ., .., //, trailing /, empty - in refine, augment, uses-augment, " +
+		"deviation, leafref path, key, unique, must, when), byte-level mutation, nesting " +
 		"depth up to 10^4, amplifier chains (k levels x b references per level for every kind of reference, clean and with one fault at the bottom), 7-24 lexical errors per file, and the lexer's error limit (7-10 invalid escapes in four layouts followed by each kind of lexer construct, " +
 		"in particular invalid escapes before multi-byte runes; the same as a byte-level operator on existing texts). evaluations = histories run; distinct_nontrivial = distinct histories (by hash of names, texts, " +
 		"options) in which at least one text passes the generic parser, i.e. reaches the AST builder"
